@@ -235,15 +235,57 @@ def parse_operand(s):
     return ('const', parse_const(s))
 
 
+def _split_cast(s):
+    """`OPERAND as TYPE (CastKind(..))` -> (operand, type, kind) or None"""
+    if not s.endswith(')'):
+        return None
+    depth = 0
+    i = len(s) - 1
+    while i >= 0:
+        if s[i] == ')':
+            depth += 1
+        elif s[i] == '(':
+            depth -= 1
+            if depth == 0:
+                break
+        i -= 1
+    if i <= 0 or s[i - 1] != ' ':
+        return None
+    kind = s[i + 1:-1]
+    if not re.match(r'^[A-Z]\w*', kind):
+        return None
+    head = s[:i - 1]
+    # top-level ' as ' (the last one outside brackets)
+    depth = 0
+    k = -1
+    j = 0
+    while j < len(head):
+        ch = head[j]
+        if ch in '([{<':
+            depth += 1
+        elif ch in ')]}' or (ch == '>' and head[j - 1] not in '-='):
+            depth -= 1
+        elif depth == 0 and head.startswith(' as ', j):
+            k = j
+        j += 1
+    if k < 0:
+        return None
+    return head[:k], head[k + 4:], kind
+
+
 def parse_rvalue(s):
     s = s.strip()
     if s.startswith('no_retag '):
         s = s[9:]
     if s.startswith(('copy ', 'move ', 'const ')):
-        m = re.match(r'^(.*) as (.*) \((\w+(?:\([^)]*\))?)\)$', s)
-        if m:
-            return ('cast', parse_operand(m.group(1)), m.group(2), m.group(3))
+        c = _split_cast(s)
+        if c:
+            return ('cast', parse_operand(c[0]), c[1], c[2])
         return ('use', parse_operand(s))
+    c = _split_cast(s)
+    if c and not s.startswith(('&', '(', '[')) and re.match(r'^[A-Za-z_<]', c[0]) and ' ' not in c[0].split('::<')[0]:
+        # cast of a bare path (fn item / constructor) e.g. `mod::Enum::Variant as fn(T) -> Enum (PointerCoercion(..))`
+        return ('cast', ('const', ('path', c[0])), c[1], c[2])
     if s.startswith('&raw const (fake) '):
         return ('ref', parse_place(s[18:])[0], 'raw')
     if s.startswith('&raw const '):
